@@ -146,6 +146,7 @@ class Interp:
         self.notes = []
         self.type_truth = self._type_truth()
         self.cur_func = None
+        self.schema_truthiness = []
 
     # ------------------------------------------------------------------ type predicates
     def _type_truth(self):
@@ -749,6 +750,9 @@ class Interp:
                 return s
         # plain truthiness of a name / sibling read
         cur = self.peek(test, s)
+        if cur is not None and cur.schema and "bool" in cur.kinds and "dict" in cur.kinds:
+            # a (sub)schema used as a condition: the boolean schema `false` and the empty schema are falsy, yet both are schemas
+            self.schema_truthiness.append((self.cur_func, test, cur.describe()))
         if cur is not None:
             new = self.refine_truth(cur, truth)
             if new is None or new.empty:
@@ -861,7 +865,8 @@ class Interp:
         if pl is not None:
             var, key, dflt = pl
             val, pres = self.sib_value(var, key, s)
-            nv = meet(val, new) if val is not None else new
+            if isinstance(key, tuple) and key and key[0] == "var":
+                return
             nv = val.only(new.kinds) if val is not None else new
             if new.nonempty and not nv.empty:
                 nv = nv.copy(nonempty=True)
@@ -883,14 +888,33 @@ class Interp:
             if v is not None and v.schema:
                 d = self.eval_quiet(e.args[1], s) if len(e.args) > 1 else AV(["null"])
                 return (var, e.args[0].value, d)
+        if isinstance(e, ast.Call) and isinstance(e.func, ast.Attribute) and e.func.attr == "get" and isinstance(e.func.value, ast.Name) \
+                and e.args and isinstance(e.args[0], ast.Name):
+            var = e.func.value.id
+            v = s.env.get(var)
+            kv = s.env.get(e.args[0].id)
+            if v is not None and v.schema and kv is not None and kv.strs is not None and kv.kinds <= frozenset(["str"]):
+                d = self.eval_quiet(e.args[1], s) if len(e.args) > 1 else AV(["null"])
+                return (var, ("var", e.args[0].id, tuple(sorted(kv.strs))), d)
         if isinstance(e, ast.Subscript) and isinstance(e.value, ast.Name) and isinstance(e.slice, ast.Constant):
             var = e.value.id
             v = s.env.get(var)
             if v is not None and v.schema:
                 return (var, e.slice.value, None)
+        if isinstance(e, ast.Subscript) and isinstance(e.value, ast.Name) and isinstance(e.slice, ast.Name):
+            # schema[<local that only holds a few constant names>]
+            var = e.value.id
+            v = s.env.get(var)
+            kv = s.env.get(e.slice.id)
+            if v is not None and v.schema and kv is not None and kv.strs is not None and kv.kinds <= frozenset(["str"]):
+                return (var, ("var", e.slice.id, tuple(sorted(kv.strs))), None)
         return None
 
     def sib_value(self, var, key, s):
+        if isinstance(key, tuple) and key and key[0] == "var":
+            _tag, kname, values = key
+            pres = "yes" if (var, ("n", kname)) in s.present else "maybe"
+            return (join_all([self.shapes.keyword(k) for k in values]), pres)
         if (var, key) in s.sib and s.sib[(var, key)][0] is not None:
             return s.sib[(var, key)]
         pres = s.sib.get((var, key), (None, "maybe"))[1]
